@@ -772,10 +772,12 @@ impl<T: Config> UdpProtocol<T> {
             // send an input ack
             self.send_input_ack();
 
-            // delete received inputs that are too old
+            // delete received inputs that are too old. The sender encodes against the last input
+            // we acknowledged *as far as it knows*; when acks get lost that can be any of the up to
+            // PENDING_OUTPUT_SIZE (+1) inputs it still holds, so all of those must stay decodable.
             let last_recv_frame = self.last_recv_frame();
-            self.recv_inputs
-                .retain(|&k, _| k >= last_recv_frame - 2 * self.max_prediction as i32);
+            let keep = std::cmp::max(2 * self.max_prediction, PENDING_OUTPUT_SIZE + 1) as i32;
+            self.recv_inputs.retain(|&k, _| k >= last_recv_frame - keep);
         }
     }
 
